@@ -24,6 +24,7 @@ type SolveResult struct {
 	Model   string
 	Confirm string // second solver's verdict (thorough tier)
 	MaxS    float64 // slowest single query of the obligation
+	SlowSolver string // solver configuration that decided the slowest query
 }
 
 type solverSpec struct {
@@ -32,11 +33,11 @@ type solverSpec struct {
 }
 
 var solvers = []solverSpec{
-	{"z3-5.1.0", func(f string, t int) []string {
-		return []string{"z3-new", fmt.Sprintf("-T:%d", t), "smt.mbqi=false", "auto_config=false", f}
-	}},
 	{"z3-5.1.0-cs3", func(f string, t int) []string {
 		return []string{"z3-new", fmt.Sprintf("-T:%d", t), "smt.mbqi=false", "auto_config=false", "smt.case_split=3", f}
+	}},
+	{"z3-5.1.0", func(f string, t int) []string {
+		return []string{"z3-new", fmt.Sprintf("-T:%d", t), "smt.mbqi=false", "auto_config=false", f}
 	}},
 	{"z3-5.1.0-arith2", func(f string, t int) []string {
 		return []string{"z3-new", fmt.Sprintf("-T:%d", t), "smt.mbqi=false", "auto_config=false", "smt.arith.solver=2", "smt.random_seed=7", f}
@@ -153,6 +154,7 @@ func (c solveConfig) stage1Only(o *Obligation) bool {
 }
 
 type solveConfig struct {
+	phaseA    bool
 	claimed   map[string]bool
 	dir       string
 	timeoutS  int
@@ -170,20 +172,134 @@ func solveAll(prelude string, opaque map[string]string, frs []*FuncResult, lemma
 	}
 	var jobs []job
 	var results []*SolveResult
-	for _, fr := range frs {
+	os.MkdirAll(cfg.dir, 0o755)
+	// Phase A: one incremental solver session per function decides the easy
+	// obligations cheaply (shared parsing and set-up); whatever it leaves
+	// undecided goes to phase B (one sliced problem per query, portfolio).
+	type caseRef struct {
+		res  int
+		o    *Obligation
+		c    oblCase
+		vac  bool
+		done bool
+	}
+	perFunc := make([][]caseRef, len(frs))
+	for fi, fr := range frs {
 		for _, o := range fr.Obls {
 			results = append(results, &SolveResult{Obl: o, Status: "unsat"})
 			ri := len(results) - 1
 			if len(o.Cases) > 0 {
 				for _, c := range o.Cases {
-					oc := *o
-					oc.Cases = nil
-					oc.Idx, oc.Guard, oc.Goal, oc.Block = c.Idx, c.Guard, c.Goal, c.Block
-					jobs = append(jobs, job{o, writeObligation(prelude, fr, &oc, false), ri})
+					perFunc[fi] = append(perFunc[fi], caseRef{res: ri, o: o, c: c})
 				}
 			} else {
-				jobs = append(jobs, job{o, writeObligation(prelude, fr, o, false), ri})
+				perFunc[fi] = append(perFunc[fi], caseRef{res: ri, o: o, c: oblCase{Idx: o.Idx, Guard: o.Guard, Goal: o.Goal, Block: o.Block}, vac: o.Vacuity})
 			}
+		}
+	}
+	if cfg.phaseA {
+		var wgA sync.WaitGroup
+		semA := make(chan struct{}, cfg.workers)
+		var muA sync.Mutex
+		const chunk = 16
+		type sess struct{ fi, lo, hi int }
+		var sessions []sess
+		for fi := range frs {
+			for lo := 0; lo < len(perFunc[fi]); lo += chunk {
+				hi := lo + chunk
+				if hi > len(perFunc[fi]) {
+					hi = len(perFunc[fi])
+				}
+				sessions = append(sessions, sess{fi, lo, hi})
+			}
+		}
+		for si, se := range sessions {
+			wgA.Add(1)
+			semA <- struct{}{}
+			go func(si int, se sess) {
+				defer wgA.Done()
+				defer func() { <-semA }()
+				fi := se.fi
+				fr := frs[fi]
+				var sb strings.Builder
+				sb.WriteString("(set-logic ALL)\n")
+				sb.WriteString(prelude)
+				sb.WriteString(fr.Extra)
+				pos := 0
+				mine := perFunc[fi][se.lo:se.hi]
+				for _, cr := range mine {
+					for ; pos < cr.c.Idx && pos < len(fr.Cmds); pos++ {
+						sb.WriteString(fr.Cmds[pos])
+						sb.WriteByte('\n')
+					}
+					sb.WriteString("(push 1)\n")
+					if !cr.vac {
+						if cr.c.Guard != "" && cr.c.Guard != "true" {
+							sb.WriteString("(assert " + cr.c.Guard + ")\n")
+						}
+						sb.WriteString("(assert (not " + cr.c.Goal + "))\n")
+					}
+					sb.WriteString("(check-sat)\n(pop 1)\n")
+				}
+				file := filepath.Join(cfg.dir, fmt.Sprintf("sessA%04d.smt2", si))
+				os.WriteFile(file, []byte(sb.String()), 0o644)
+				procSem <- struct{}{}
+				t0 := time.Now()
+				cctx, cancel := context.WithTimeout(context.Background(), time.Duration(20+3*len(mine))*time.Second)
+				cmd := exec.CommandContext(cctx, "z3-new", "-t:1500", "smt.mbqi=false", "auto_config=false", "smt.case_split=3", file)
+				var out bytes.Buffer
+				cmd.Stdout = &out
+				cmd.Stderr = &out
+				_ = cmd.Run()
+				cancel()
+				<-procSem
+				el := time.Since(t0).Seconds()
+				var answers []string
+				for _, l := range strings.Split(out.String(), "\n") {
+					l = strings.TrimSpace(l)
+					if l == "sat" || l == "unsat" || l == "unknown" || l == "timeout" {
+						answers = append(answers, l)
+					}
+				}
+				muA.Lock()
+				per := el / float64(len(mine))
+				for k := range mine {
+					if k < len(answers) {
+						cr := &perFunc[fi][se.lo+k]
+						if (!cr.vac && answers[k] == "unsat") || (cr.vac && answers[k] != "unsat") {
+							cr.done = true
+							agg := results[cr.res]
+							agg.TimeS += per
+							if per > agg.MaxS {
+								agg.MaxS = per
+								agg.SlowSolver = "z3-5.1.0-cs3"
+							}
+							if agg.Solver == "" {
+								agg.Solver = "z3-5.1.0-cs3-incremental"
+							}
+							if cr.vac {
+								agg.Status = answers[k]
+							}
+						}
+					}
+				}
+				muA.Unlock()
+				if !cfg.keepFiles {
+					os.Remove(file)
+				}
+			}(si, se)
+		}
+		wgA.Wait()
+	}
+	for fi, fr := range frs {
+		for _, cr := range perFunc[fi] {
+			if cr.done {
+				continue
+			}
+			oc := *cr.o
+			oc.Cases = nil
+			oc.Idx, oc.Guard, oc.Goal, oc.Block = cr.c.Idx, cr.c.Guard, cr.c.Goal, cr.c.Block
+			jobs = append(jobs, job{cr.o, writeObligation(prelude, fr, &oc, false), cr.res})
 		}
 	}
 	for _, l := range lemmas {
@@ -198,7 +314,6 @@ func solveAll(prelude string, opaque map[string]string, frs []*FuncResult, lemma
 	var wg sync.WaitGroup
 	var mu sync.Mutex
 	sem := make(chan struct{}, cfg.workers)
-	os.MkdirAll(cfg.dir, 0o755)
 	for i := range jobs {
 		wg.Add(1)
 		sem <- struct{}{}
@@ -214,6 +329,7 @@ func solveAll(prelude string, opaque map[string]string, frs []*FuncResult, lemma
 			agg.TimeS += r.TimeS
 			if r.TimeS > agg.MaxS {
 				agg.MaxS = r.TimeS
+				agg.SlowSolver = r.Solver
 			}
 			if agg.Solver == "" {
 				agg.Solver = r.Solver
@@ -240,60 +356,67 @@ func solveAll(prelude string, opaque map[string]string, frs []*FuncResult, lemma
 func solveOne(o *Obligation, file string, cfg solveConfig) *SolveResult {
 	ctx := context.Background()
 	res := &SolveResult{Obl: o, File: file}
-	// stage 1: z3 5.1 with a short limit
-	short := cfg.timeoutS
-	if short > 3 {
-		short = 3
-	}
-	st, out, el := runSolver(ctx, solvers[0], file, short)
-	res.TimeS += el
 	done := func(s string) bool { return s == "unsat" || s == "sat" }
-	if done(st) || (o.Vacuity && st == "unknown") || cfg.stage1Only(o) {
-		res.Status, res.Solver, res.Output = st, solvers[0].name, out
-	} else {
-		// stage 2: the configuration that decides most of the hard goals, alone
-		mid := cfg.timeoutS
-		if mid > 10 {
-			mid = 10
+	type ans struct {
+		st, out, name string
+		el            float64
+	}
+	race := func(sps []solverSpec, timeoutS int) ans {
+		cctx, cancel := context.WithCancel(ctx)
+		defer cancel()
+		ch := make(chan ans, len(sps))
+		for _, sp := range sps {
+			go func(sp solverSpec) {
+				s, o2, e2 := runSolver(cctx, sp, file, timeoutS)
+				ch <- ans{s, o2, sp.name, e2}
+			}(sp)
 		}
-		st2, out2, el2 := runSolver(ctx, solvers[1], file, mid)
-		res.TimeS += el2
-		if done(st2) {
-			res.Status, res.Solver, res.Output = st2, solvers[1].name, out2
-		} else {
-			// stage 3: race the rest of the portfolio
-			type ans struct {
-				st, out, name string
-				el            float64
+		best := ans{st: "timeout"}
+		for range sps {
+			a := <-ch
+			if done(a.st) {
+				return a
 			}
-			cctx, cancel := context.WithCancel(ctx)
-			rest := solvers[2:]
-			if cfg.timeoutS > mid {
-				rest = solvers[1:]
+			if a.st == "unknown" || best.name == "" {
+				best = a
 			}
-			ch := make(chan ans, len(rest))
-			for _, sp := range rest {
-				go func(sp solverSpec) {
-					s, o2, e2 := runSolver(cctx, sp, file, cfg.timeoutS)
-					ch <- ans{s, o2, sp.name, e2}
-				}(sp)
+		}
+		return best
+	}
+	// stage 1: the configuration recorded in the baseline (or the default
+	// pair), with the full time limit
+	first := []solverSpec{solvers[0], solvers[1]}
+	if h, ok := baselineHints[o.Name]; ok && h != "" {
+		for _, sp := range solvers {
+			if sp.name == h && h != solvers[0].name && h != solvers[1].name {
+				first = append([]solverSpec{sp}, first...)
 			}
-			best := ans{st: st2, out: out2, name: solvers[1].name}
-			if st == "unknown" {
-				best = ans{st: st, out: out, name: solvers[0].name}
-			}
-			for range rest {
-				a := <-ch
-				if done(a.st) {
-					best = a
-					break
-				} else if !done(best.st) && a.st == "unknown" {
-					best = a
+		}
+	}
+	t1 := cfg.timeoutS
+	if cfg.stage1Only(o) && t1 > 3 {
+		t1 = 3
+	}
+	a := race(first, t1)
+	res.TimeS += a.el
+	res.Status, res.Solver, res.Output = a.st, a.name, a.out
+	if !done(a.st) && !(o.Vacuity && a.st == "unknown") && !cfg.stage1Only(o) {
+		var rest []solverSpec
+		for _, sp := range solvers {
+			used := false
+			for _, f := range first {
+				if f.name == sp.name {
+					used = true
 				}
 			}
-			cancel()
-			res.Status, res.Solver, res.Output = best.st, best.name, best.out
-			res.TimeS += best.el
+			if !used {
+				rest = append(rest, sp)
+			}
+		}
+		b := race(rest, cfg.timeoutS)
+		res.TimeS += b.el
+		if done(b.st) || a.st != "unknown" {
+			res.Status, res.Solver, res.Output = b.st, b.name, b.out
 		}
 	}
 	if res.Status == "unsat" && cfg.confirm && !o.Vacuity {
